@@ -318,7 +318,7 @@ func vC04BearerSequence(t *testing.T, out *vEmitter) {
 		}
 	}
 	if accepted == 0 {
-		t.Fatalf("no bearer token was accepted in the sequence sweep")
+		out.Violation("control/no-bearer-token-accepted", "no bearer token was accepted in the sequence sweep: the sweep checks nothing", map[string]interface{}{})
 	}
 }
 
